@@ -163,6 +163,15 @@ Definition dec_ultrazip (rx ry rw rh : Z) : M unit :=
   data <- rd_lblock ;;
   let ub := ry + rw * 65535 in
   if ub =? 0 then failM else
+  (* [int] arithmetic: for ub + 500 >= 2^31 the size wraps to a negative int, the (re)allocation is skipped and the
+     block is decompressed into whatever raw_buffer is - NULL when nothing was allocated yet (finding C08-F29);
+     fix 9 (notes/fix_C08_9.diff) refuses such rectangles *)
+  if 2 ^ 31 <=? ub + 504 then
+    (if fixed s 9 then failM else
+     if c_rawsz s <? 0 then (if zlen data =? 0 then ultrazip_walk (Z.to_nat rx) rx 0 (bypp_of s) (mkcur [] 0) else oobM 45) else
+     if c_rawsz s <? zlen data then failM else
+     ultrazip_walk (Z.to_nat rx) rx (c_rawsz s) (bypp_of s) (mkcur data 0))
+  else
   let cap := if c_rawsz s <? ub + 500 then round4 (ub + 500) else c_rawsz s in
   upd_st (fun s => set_rawsz s cap) ;;;
   if cap <? zlen data then failM else
